@@ -6,8 +6,8 @@ Open Scope string_scope.
 Definition one (n : string) := filter (fun fd => String.eqb (fn_name fd) n) eon_program.
 Eval vm_compute in (report eon_program (one "Gillespie_SIR")).
 Eval vm_compute in (dead_report eon_program (one "Gillespie_SIR")).
-Eval vm_compute in (report eon_program (one "discrete_SIR")).
-Eval vm_compute in (dead_report eon_program (one "discrete_SIR")).
+Eval vm_compute in (report eon_program (one "Gillespie_SIS")).
+Eval vm_compute in (dead_report eon_program (one "Gillespie_SIS")).
 Eval vm_compute in (report eon_program (one "Gillespie_complex_contagion")).
 Eval vm_compute in (dead_report eon_program (one "Gillespie_complex_contagion")).
 Eval vm_compute in (report eon_program (one "_transform_to_node_history_")).
